@@ -480,7 +480,7 @@ impl World {
 
     unsafe fn exec(&mut self, c: Call) {
         use Call::*;
-        match c {
+        match c.clone() {
             RequestCreate(k) => {
                 // k == 3: a URL longer than 64 KiB (one very long parameter value)
                 let long_uri = if k == 3 { format!("/p?b=2&a=1&utm_source=x&z={}", "z".repeat(70_000)) } else { String::new() };
@@ -571,6 +571,46 @@ impl World {
                     }
                 }
             }
+            _ => {}
+            }
+            // unusual but legal response header lists (repeated Content-Type / Content-Encoding, other letter case): an extra
+            // filter is created on both sides, fed one chunk and closed within this call
+            if matches!(c, BodyFilterCreate(0)) {
+                let lists: [&[(&str, &str)]; 5] = [
+                    &[("Content-Type", "text/html"), ("Content-Type", "text/html"), ("Content-Encoding", "gzip")],
+                    &[("Content-Type", "text/html"), ("Content-Type", "text/html"), ("Content-Encoding", "zstd")],
+                    &[("Content-Type", "text/html"), ("Content-Encoding", "gzip"), ("Content-Type", "application/json")],
+                    &[("content-type", "TEXT/HTML; charset=utf-8"), ("X-A", "1"), ("X-B", "2"), ("CONTENT-ENCODING", "identity")],
+                    &[("X-A", "1"), ("Content-Type", "application/json"), ("Content-Type", "text/html")],
+                ];
+                for (li, list) in lists.iter().enumerate() {
+                    let pairs: Vec<(Option<&str>, Option<&str>)> = list.iter().map(|(n, v)| (Some(*n), Some(*v))).collect();
+                    let h = OwnedHeaders::new(&pairs);
+                    let extra = redirectionio_action_body_filter_create(self.action, 200, h.ptr()) as *mut FilterBodyAction;
+                    let nh: Vec<Header> = list.iter().map(|(n, v)| Header { name: n.to_string(), value: v.to_string() }).collect();
+                    let mut native_extra = self.native_action.as_mut().and_then(|a| a.create_filter_body(200, &nh));
+                    if extra.is_null() != native_extra.is_none() {
+                        self.mismatch("body_filter_create-differs-from-native", format!("header list #{li} {list:?}: ffi null: {}, native none: {}", extra.is_null(), native_extra.is_none()));
+                    }
+                    if !extra.is_null() {
+                        let chunk = b"<html><body><p>plain</p></body></html>".to_vec();
+                        let out = redirectionio_action_body_filter_filter(extra, Buffer::from_vec(chunk.clone()));
+                        let mut got = out.to_vec();
+                        redirectionio_api_buffer_drop(out);
+                        let end = redirectionio_action_body_filter_close(extra);
+                        got.extend(end.to_vec());
+                        redirectionio_api_buffer_drop(end);
+                        if let Some(f) = native_extra.as_mut() {
+                            let mut want = f.filter(chunk.clone(), None);
+                            want.extend(f.end(None));
+                            if got != want {
+                                self.mismatch("body_filter_filter-differs-from-native", format!("header list #{li} {list:?}: {:?} vs {:?}", String::from_utf8_lossy(&got), String::from_utf8_lossy(&want)));
+                            }
+                        }
+                    }
+                }
+            }
+            match c {
             TrustedProxiesCreate => {
                 let s = OwnedC::new("10.0.0.0/8, 127.0.0.1");
                 self.proxies = redirectionio_trusted_proxies_create(s.ptr()) as *mut CTrustedProxies;
@@ -813,6 +853,7 @@ impl World {
                     self.mismatch("api-version", format!("{v:?}"));
                 }
             }
+            _ => {}
         }
     }
 
